@@ -136,7 +136,8 @@ func (hs *serverHandshakeStateGM) readClientHello() (isResume bool, err error) {
 	}
 
 	c.vers, ok = c.config.mutualVersion(hs.clientHello.vers)
-	if !ok {
+	if !ok || hs.clientHello.vers != VersionGMSSL {
+		// this server speaks GMSSL only
 		c.sendAlert(alertProtocolVersion)
 		return false, fmt.Errorf("tls: client offered an unsupported, maximum protocol version of %x", hs.clientHello.vers)
 	}
